@@ -1,6 +1,7 @@
 package sys
 
 import (
+	"encoding/json"
 	"fmt"
 	"sort"
 	"strings"
@@ -40,7 +41,7 @@ func basePkgs() []WPkg {
 func baseRegs() []WReg {
 	return []WReg{
 		{Pkg: R1, Versions: []WVer{{V: "2.0.0", Source: ws(P3, "sub"), Deprecated: true, Reason: "old", Link: "https://example.com/why"}, {V: "1.0.0", Source: "git::https://example.com/p3.git//sub"}, {V: "1.1.0-beta", Source: P2}}},
-		{Pkg: R2, Versions: []WVer{{V: "0.9.0", Source: P1}}},
+		{Pkg: R2, Versions: []WVer{{V: "0.9.0+build.5", Source: P1}}}, // build metadata is part of the version's identity
 	}
 }
 
@@ -78,7 +79,7 @@ func addMenu() []AddCall {
 		{Kind: "remote", Addr: P1, Finder: "F2"},
 		{Kind: "remote", Addr: P5, Finder: "F1"},
 		{Kind: "remote", Addr: P6, Finder: "F2"},
-		{Kind: "remote", Addr: P1, Finder: "G1"}, // another finder TYPE that prints like F1
+		{Kind: "remote", Addr: P1, Finder: "G1"},                          // another finder TYPE that prints like F1
 		{Kind: "registry", Addr: R1, Allowed: "only:1.0.0", Finder: "F1"}, // same source and finder as #4, another version
 	}
 }
@@ -232,7 +233,9 @@ func probesFor(c *RefClosure) []string {
 // judges
 
 func judgeC08(sc scenario, c *RefClosure, out BuildOut) (viol [][2]string) {
-	bad := func(sig, f string, a ...any) { viol = append(viol, [2]string{"sourcebundle.Builder/" + sig, fmt.Sprintf(f, a...)}) }
+	bad := func(sig, f string, a ...any) {
+		viol = append(viol, [2]string{"sourcebundle.Builder/" + sig, fmt.Sprintf(f, a...)})
+	}
 	anyErr := false
 	for _, a := range out.Adds {
 		if a.HasErrors || a.Panic != "" {
@@ -325,6 +328,25 @@ func judgeC08(sc scenario, c *RefClosure, out BuildOut) (viol [][2]string) {
 			bad("package-meta", "bundle meta for %s is %q, fetcher gave %q", pa, got, want)
 		}
 	}
+	// the bundle directory holds the manifest and the package directories it names, nothing else
+	{
+		var doc struct {
+			Packages []struct {
+				Local string `json:"local"`
+			} `json:"packages"`
+		}
+		if err := json.Unmarshal([]byte(out.Bundle.Manifest), &doc); err == nil && len(out.Bundle.Listing) > 0 {
+			named := map[string]bool{"terraform-sources.json": true}
+			for _, p := range doc.Packages {
+				named[p.Local] = true
+			}
+			for _, e := range out.Bundle.Listing {
+				if !named[strings.TrimSuffix(e, "/")] {
+					bad("stray-entry-in-bundle-directory", "the finished bundle directory contains %q, which the manifest does not name (listing %v)", e, out.Bundle.Listing)
+				}
+			}
+		}
+	}
 	// foreign probe must fail
 	if l, ok := look["git::https://example.com/not-in-bundle.git//x"]; ok && l.Err == "" {
 		bad("foreign-lookup-succeeds", "a package that was never added resolves to %s", l.Rel)
@@ -333,7 +355,9 @@ func judgeC08(sc scenario, c *RefClosure, out BuildOut) (viol [][2]string) {
 }
 
 func judgeC14(sc scenario, c *RefClosure, out BuildOut) (viol [][2]string) {
-	bad := func(sig, f string, a ...any) { viol = append(viol, [2]string{"sourcebundle.Builder/" + sig, fmt.Sprintf(f, a...)}) }
+	bad := func(sig, f string, a ...any) {
+		viol = append(viol, [2]string{"sourcebundle.Builder/" + sig, fmt.Sprintf(f, a...)})
+	}
 	for _, a := range out.Adds {
 		if strings.Contains(a.Panic, "CALLBACK-BUDGET") {
 			bad("non-termination", "the build exceeded the callback budget: %s", a.Panic)
@@ -606,7 +630,11 @@ func RunC13(tier string) int {
 		seen := map[string]bool{}
 		frontier := []scenario{{adds: adds}}
 		all := []scenario{frontier[0]}
-		for d := 1; d <= maxEdges; d++ {
+		edgeBound := maxEdges
+		if len(adds) >= 4 {
+			edgeBound = 1 // four Adds have 48 orders each: one edge keeps the tier inside its budget
+		}
+		for d := 1; d <= edgeBound; d++ {
 			var next []scenario
 			for _, sc := range frontier {
 				if time.Now().After(genDeadline) {
@@ -653,97 +681,119 @@ func RunC13(tier string) int {
 	}
 	fmt.Printf("  add sets=%d groups(worlds)=%d builds=%d capped=%v\n", len(addSets), groups, len(jobs), capped)
 	pool := core.NewPool(0)
-	args := make([]BuildArg, len(jobs))
-	obs := make([]c13Obs, len(jobs))
-	done := make([]bool, len(jobs))
-	pool.Map("build", len(jobs), func(i int) any {
-		j := jobs[i]
-		adds := make([]AddCall, len(j.perm))
-		for k, pi := range j.perm {
-			adds[k] = j.sc.adds[pi]
+	runDeadline := time.Now().Add(100 * time.Second)
+	if thorough {
+		runDeadline = time.Now().Add(25 * time.Minute)
+	}
+	// Worlds are processed in chunks (whole groups): arguments and observations of a
+	// chunk are dropped before the next one starts, so memory stays bounded.
+	allJobs := jobs
+	groupsDone := 0
+	for lo := 0; lo < len(allJobs); {
+		if time.Now().After(runDeadline) {
+			rep.Exhaustive = false
+			break
 		}
-		c := Closure(j.sc.world(), j.sc.adds)
-		probes := probesFor(c)
-		for p := range c.Packages {
-			probes = append(probes, mustRemote(p).Package().String())
+		hi := lo
+		for hi < len(allJobs) && (hi-lo < 40000 || allJobs[hi].group == allJobs[hi-1].group) {
+			hi++
 		}
-		sort.Strings(probes)
-		args[i] = BuildArg{World: j.sc.world(), Adds: adds, Flip: j.flip, Probes: probes}
-		return args[i]
-	}, func(i int, r core.Result) {
-		rep.Evaluations++
-		if r.Hung || r.Crashed {
-			rep.Violation("sourcebundle.Builder/hang-or-crash", jobs[i].sc.String()+" "+firstLines(r.Stderr, 3), "build", args[i])
-			return
-		}
-		var out BuildOut
-		core.MustOut(r, &out)
-		obs[i] = observeC13(out)
-		done[i] = true
-	})
-	// compare within groups
-	first := map[int]int{}
-	differing := map[int]bool{}
-	for i, j := range jobs {
-		if !done[i] {
-			continue
-		}
-		b, ok := first[j.group]
-		if !ok {
-			first[j.group] = i
-			o := obs[i]
-			if !o.ok {
-				rep.Violation("sourcebundle.Builder/spurious-error", j.sc.String()+" :: "+o.errs, "build", args[i])
+		jobs := allJobs[lo:hi]
+		groupsDone = allJobs[hi-1].group + 1
+		lo = hi
+		args := make([]BuildArg, len(jobs))
+		obs := make([]c13Obs, len(jobs))
+		done := make([]bool, len(jobs))
+		pool.Map("build", len(jobs), func(i int) any {
+			j := jobs[i]
+			adds := make([]AddCall, len(j.perm))
+			for k, pi := range j.perm {
+				adds[k] = j.sc.adds[pi]
+			}
+			c := Closure(j.sc.world(), j.sc.adds)
+			probes := probesFor(c)
+			for p := range c.Packages {
+				probes = append(probes, mustRemote(p).Package().String())
+			}
+			sort.Strings(probes)
+			args[i] = BuildArg{World: j.sc.world(), Adds: adds, Flip: j.flip, Probes: probes}
+			return args[i]
+		}, func(i int, r core.Result) {
+			rep.Evaluations++
+			if r.Hung || r.Crashed {
+				rep.Violation("sourcebundle.Builder/hang-or-crash", jobs[i].sc.String()+" "+firstLines(r.Stderr, 3), "build", args[i])
+				return
+			}
+			var out BuildOut
+			core.MustOut(r, &out)
+			obs[i] = observeC13(out)
+			done[i] = true
+		})
+		// compare within groups
+		first := map[int]int{}
+		differing := map[int]bool{}
+		for i, j := range jobs {
+			if !done[i] {
 				continue
 			}
-			// coalescing: same directory iff same file set
-			pk := sortedKeys(o.dirs)
-			for x := 0; x < len(pk); x++ {
-				for y := x + 1; y < len(pk); y++ {
-					sameDir := strings.SplitN(o.dirs[pk[x]], "/", 2)[0] == strings.SplitN(o.dirs[pk[y]], "/", 2)[0]
-					sameSet := o.fileSets[pk[x]] == o.fileSets[pk[y]]
-					if sameDir != sameSet {
-						rep.Violation("sourcebundle.Builder/coalescing", fmt.Sprintf("%s :: packages %s and %s: same directory=%v but same files=%v", j.sc, pk[x], pk[y], sameDir, sameSet), "build", args[i])
-					}
-					if sameSet {
-						rep.Outcome("coalesced-pair-seen")
+			b, ok := first[j.group]
+			if !ok {
+				first[j.group] = i
+				o := obs[i]
+				if !o.ok {
+					rep.Violation("sourcebundle.Builder/spurious-error", j.sc.String()+" :: "+o.errs, "build", args[i])
+					continue
+				}
+				// coalescing: same directory iff same file set
+				pk := sortedKeys(o.dirs)
+				for x := 0; x < len(pk); x++ {
+					for y := x + 1; y < len(pk); y++ {
+						sameDir := strings.SplitN(o.dirs[pk[x]], "/", 2)[0] == strings.SplitN(o.dirs[pk[y]], "/", 2)[0]
+						sameSet := o.fileSets[pk[x]] == o.fileSets[pk[y]]
+						if sameDir != sameSet {
+							rep.Violation("sourcebundle.Builder/coalescing", fmt.Sprintf("%s :: packages %s and %s: same directory=%v but same files=%v", j.sc, pk[x], pk[y], sameDir, sameSet), "build", args[i])
+						}
+						if sameSet {
+							rep.Outcome("coalesced-pair-seen")
+						}
 					}
 				}
+				rep.Nontrivial(o.manifest + o.listing)
+				continue
 			}
-			rep.Nontrivial(o.manifest + o.listing)
-			continue
+			a, o := obs[b], obs[i]
+			var diffs []string
+			if a.ok != o.ok {
+				diffs = append(diffs, fmt.Sprintf("success %v vs %v (%s)", a.ok, o.ok, o.errs))
+			}
+			if a.listing != o.listing {
+				diffs = append(diffs, "directory listing: "+a.listing+" vs "+o.listing)
+			}
+			if a.manifest != o.manifest {
+				diffs = append(diffs, "manifest bytes differ")
+			}
+			if a.checksum != o.checksum {
+				diffs = append(diffs, "checksum "+a.checksum+" vs "+o.checksum)
+			}
+			if a.lookups != o.lookups {
+				diffs = append(diffs, "lookup table differs")
+			}
+			if len(diffs) > 0 {
+				rep.Violation("sourcebundle.Builder/order-dependence", fmt.Sprintf("%s :: add order %v flip=%v differs from order %v flip=%v: %s", j.sc, j.perm, j.flip, jobs[b].perm, jobs[b].flip, strings.Join(diffs, "; ")), "build", args[i])
+			}
+			_ = differing
+			rep.Outcome("order-compared")
 		}
-		a, o := obs[b], obs[i]
-		var diffs []string
-		if a.ok != o.ok {
-			diffs = append(diffs, fmt.Sprintf("success %v vs %v (%s)", a.ok, o.ok, o.errs))
-		}
-		if a.listing != o.listing {
-			diffs = append(diffs, "directory listing: "+a.listing+" vs "+o.listing)
-		}
-		if a.manifest != o.manifest {
-			diffs = append(diffs, "manifest bytes differ")
-		}
-		if a.checksum != o.checksum {
-			diffs = append(diffs, "checksum "+a.checksum+" vs "+o.checksum)
-		}
-		if a.lookups != o.lookups {
-			diffs = append(diffs, "lookup table differs")
-		}
-		if len(diffs) > 0 {
-			rep.Violation("sourcebundle.Builder/order-dependence", fmt.Sprintf("%s :: add order %v flip=%v differs from order %v flip=%v: %s", j.sc, j.perm, j.flip, jobs[b].perm, jobs[b].flip, strings.Join(diffs, "; ")), "build", args[i])
-		}
-		_ = differing
-		rep.Outcome("order-compared")
 	}
-	rep.States = groups
+	rep.States = groupsDone
 	rep.Transitions = rep.Evaluations
 	rep.Extra["worlds"] = groups
-	rep.Extra["builds"] = len(jobs)
+	rep.Extra["worlds_completed"] = groupsDone
+	rep.Extra["builds"] = rep.Evaluations
 	if sc13 != nil {
 		sc13(rep, tier)
 	}
-	rep.Rule = "for every world (set of 2..3/4 distinct Add calls × reachable edge sets of <=1/2 edges, error-free by the reference closure): all permutations of the Add calls × both orders of every finder's edge list, each built by the real Builder; observables (top-level listing, manifest bytes, ChecksumV1, lookup table) must equal those of the first order; coalescing: two packages share a directory iff they have the same {file path -> bytes} (content twins, a twin with one extra file, a twin with one changed byte). Schedules: see sched part. Non-trivial/distinct = distinct manifests."
+	rep.Rule = "for every world (set of 2..3/4 distinct Add calls × reachable edge sets of <=1/2 edges — sets of four Adds: <=1 edge —, error-free by the reference closure): all permutations of the Add calls × both orders of every finder's edge list, each built by the real Builder; observables (top-level listing, manifest bytes, ChecksumV1, lookup table) must equal those of the first order; coalescing: two packages share a directory iff they have the same {file path -> bytes} (content twins, a twin with one extra file, a twin with one changed byte). Schedules: see sched part. Non-trivial/distinct = distinct manifests."
 	return rep.Finish()
 }
 
